@@ -19,7 +19,7 @@ PROP = dict(
     rule=("400 generated scenarios (6000 thorough) of 10-60 operations on the real Store: 1-3 updaters at start (several on one secret), rounds of 0-3 installs (service put + Refresh, 30% of them "
           "gated mid-flight with NewUpdater/Get/Err inside the gate, 10% failing) followed by 1-4 Gets (20% from 2-4 goroutines, 20% with an install performed during the builder call), builder failures "
           "17-20%, undeclared and non-existent names, both AllowLookup settings; plus 60 (1500) late-flight scenarios (1-2 callers of LookupSecret/NewUpdater held between check and flight, overtaken by NewUpdater/LookupSecret or not, "
-          "service version changed/deleted meanwhile, released in either order, then reads, Refresh, Gets) and the F8 witnesses from corpus/C15; one case = one scenario; non-trivial if a value was rebuilt and at least two polls installed something, or a released flight found its name already valued; distinct by trace + 100 rollback/cache-fault scenarios (2500 thorough): 1-3 updaters, a history of 2-4 versions, then 2-5 steps of {the service activates an OLDER or a later existing version again (1-3 activations in a row, same bytes as that version always had) or a new one; in 50% the cache refuses the next 1-3 writes; a plain or gated poll (service moving again / Get / NewUpdater inside the gate); in 50% a further poll answered not-changed; Gets}; the main scenarios also get rollbacks (25% of install steps) and cache faults (12%) from a second random stream; 5 corpus witnesses of the two classes"),
+          "service version changed/deleted meanwhile, released in either order, then reads, Refresh, Gets) and the F8 witnesses from corpus/C15; one case = one scenario; non-trivial if a value was rebuilt and at least two polls installed something, or a released flight found its name already valued; distinct by trace + 100 rollback/cache-fault scenarios (2500 thorough): 1-3 updaters, a history of 2-4 versions, then 2-5 steps of {the service activates an OLDER or a later existing version again (1-3 activations in a row, same bytes as that version always had) or a new one; in 50% the cache refuses the next 1-3 writes; a plain or gated poll (service moving again / Get / NewUpdater inside the gate); in 50% a further poll answered not-changed; Gets}; the main scenarios also get rollbacks (25% of install steps) and cache faults (12%) from a second random stream; 5 corpus witnesses of the two classes + round 4: 40 scenarios (1000 thorough) with Updaters registered through the lookup of an unknown name (by this NewUpdater, after an earlier lookup, while overtaken by another lookup, next to a declared name) followed by 1-3 rounds of new version / poll / Get"),
     explain="what Refresh returned (error class, cache writes), what Updater.Get returned, a builder call, a Close call, the outcome of NewUpdater/LookupSecret, the bytes the store serves or the version a poll asks about differs from the updater model (which provably never loses an update, rebuilds only after an install, keeps the old value on failure and closes each replaced value exactly once)",
     assumptions=["Updater.Get holds u.mu for the whole call (Gets of one updater serialise); data-race freedom is tested with -race, not proved"],
 )
